@@ -206,6 +206,24 @@ CLAIMED.update({
   },
 })
 
+CLAIMED.update({
+  "C04": {
+    "text": "IMSC reader: (a) real to_model on XML trees (par/seq containers, begin/dur/end in all combinations on a chain, offset "
+            "containers with implicit duration, empty containers, br) whose time attributes are markers resolved to symbolic "
+            "rationals; the result is observed through ISD.from_model at a symbolic time and compared with an independent TTML2/"
+            "SMIL time-containment interpreter on the XML tree; (b) parse_time_expression arithmetic for every offset metric, "
+            "clock time and clock time with frames with symbolic integer fields through the reader's own regexes (hole tokens), 5 "
+            "frame rates, symbolic tick rate; (c) 21 style attributes x well-formed/malformed values on region/p/span: no "
+            "exception, logged, neighbours unchanged; (d) style precedence graphs (inline/nested/referential/chained/diamond/"
+            "missing/initial), xml:space/lang inheritance, anonymous spans.",
+    "note": "parse_time_expression is stubbed in (a) and decided separately in (b); fractional digit fields only with concrete "
+            "strings; (c),(d) are selector enumerations over real XML strings. timeContainer on p/span, set and region timing via "
+            "XML, ruby containers and frameRateMultiplier parsing are outside.",
+    "technique": "symbolic execution with z3 Real/Int proxies + hole-token regex matching, differential against an R-TTML interpreter",
+    "design": "DESIGN.md §3 C04",
+  },
+})
+
 NOT_YET = {
 }
 
